@@ -343,6 +343,10 @@ def consumercases(draw):
     c["nproj"] = draw(st.integers(40, 200))
     c["label"] = draw(st.sampled_from([0, 1, 3]))
     c["icolf"] = draw(st.booleans())
+    if draw(st.sampled_from([False, False, True])):
+        # rotation axis exactly on the sinogram centre: the module's shift is exactly 0.0
+        c["y0off"] = 0.5
+        c["yminoff"] = float(round(c["yminoff"]))
     return c
 
 
@@ -448,10 +452,22 @@ def check_consumers(case, rec=None):
             if np.hypot(t[0] - sx, t[1] - sy) > 1e-4 * (r + ystep) or abs(gs.recon_y0 - y0) > 1e-4 * (r + ystep) or t[2] != 0:
                 fails.append(fail("grainsino", "update_lab_position_from_peaks: translation %s y0 %r, simulated (%.4f, "
                                   "%.4f) y0 %.4f; %s" % (t.tolist(), gs.recon_y0, sx, sy, y0, where), what="fit"))
-            ok, sp = guard(G.sino_shift_and_pad, gs.recon_y0, ny, ymin, ystep)
+            # (the fitted axis position was compared above; the exact one is used from here on, so that the class
+            #  "axis exactly on the sinogram centre, shift == 0.0" really occurs)
+            ok, sp = guard(G.sino_shift_and_pad, y0, ny, ymin, ystep)
             if not ok:
                 return fails + [exc_failure("sino_shift_and_pad", sp)]
-            gs.update_recon_parameters(pad=int(sp[1]), shift=sp[0])
+            if rec is not None and sp[0] == 0.0:
+                rec.note("grainsino_cases_with_zero_shift", 1, "sum")
+            # a first, rough guess of the axis position (3.2 steps off), then the fitted one on the same object
+            ok, sp0 = guard(G.sino_shift_and_pad, gs.recon_y0 + 3.2 * ystep, ny, ymin, ystep)
+            if ok:
+                gs.update_recon_parameters(pad=int(sp0[1]), shift=sp0[0], y0=gs.recon_y0 + 3.2 * ystep)
+            gs.update_recon_parameters(pad=int(sp[1]), shift=sp[0], y0=y0)
+            if not (gs.recon_shift == sp[0] and gs.recon_pad == int(sp[1]) and gs.recon_y0 == y0):
+                fails.append(fail("grainsino", "update_recon_parameters(pad=%r, shift=%r, y0=%r) left pad=%r shift=%r "
+                                  "y0=%r; %s" % (int(sp[1]), sp[0], y0, gs.recon_pad, gs.recon_shift, gs.recon_y0, where),
+                                  what="params"))
             with contextlib.redirect_stdout(io.StringIO()):
                 ok, rc = guard(gs.recon, workers=2)
             if not ok:
